@@ -479,25 +479,25 @@ func finish(c *Ctx, spec *propSpec, known []KnownFinding, evDir string, t0 time.
 		"coverage": map[string]interface{}{
 			"explanation": "Static analysis (no code is run): structural necessary conditions of " + c.Prop + " (" + spec.title + ") decided over every matching site of the current /repo working tree. " +
 				"Rules: " + strings.Join(expl, " || ") + ". NOT covered (runtime-value clauses): " + spec.notCovered,
-			"obligations":            nObl,
-			"discharged":             nDis,
-			"known":                  nKnown,
-			"violated":               nViol,
-			"info":                   nInfo,
-			"evaluations":            nObl,
-			"distinct_nontrivial":    len(distinct),
-			"rule":                   "one obligation per (rule, construct); distinct = distinct (rule,construct) keys with a non-vacuous verdict; every site of every rule enumerated from go/types+go/ssa on this run",
-			"sites_per_rule":         c.Sites,
-			"samples":                samples,
-			"exhaustive":             true,
-			"packages_loaded":        len(pk),
-			"functions_analysed":     len(fns),
+			"obligations":               nObl,
+			"discharged":                nDis,
+			"known":                     nKnown,
+			"violated":                  nViol,
+			"info":                      nInfo,
+			"evaluations":               nObl,
+			"distinct_nontrivial":       len(distinct),
+			"rule":                      "one obligation per (rule, construct); distinct = distinct (rule,construct) keys with a non-vacuous verdict; every site of every rule enumerated from go/types+go/ssa on this run",
+			"sites_per_rule":            c.Sites,
+			"samples":                   samples,
+			"exhaustive":                true,
+			"packages_loaded":           len(pk),
+			"functions_analysed":        len(fns),
 			"functions_analysed_sample": fns[:min(len(fns), 40)],
-			"callgraph":              cgName,
-			"checker_cmd":            cmd,
-			"trusted_base":           []string{"go/types", "golang.org/x/tools/go/ssa v0.50.0", "golang.org/x/tools/go/callgraph/{cha,vta}", "rule slot tables in /verif/checker/c*.go", "go list (go1.26.8) package loading"},
-			"undecided":              c.Undec,
-			"notes":                  c.Notes,
+			"callgraph":                 cgName,
+			"checker_cmd":               cmd,
+			"trusted_base":              []string{"go/types", "golang.org/x/tools/go/ssa v0.50.0", "golang.org/x/tools/go/callgraph/{cha,vta}", "rule slot tables in /verif/checker/c*.go", "go list (go1.26.8) package loading"},
+			"undecided":                 c.Undec,
+			"notes":                     c.Notes,
 		},
 		"assumptions": append([]string{
 			"satisfying the structural rules is necessary, not sufficient, for the behavioural property",
